@@ -100,7 +100,10 @@ Ok(ev, pv) ==
                               \* the reverse lookup of aircraft_information (no registration
                               \* supplied in THIS call) is held to clause (3) as well
                               /\ (ev.ai.out = "ok" /\ ev.ai.reg # <<>>)
-                                   => MarkBelongsTo(ev.ai.reg, TableCountry(ev.h))
+                                   => /\ MarkBelongsTo(ev.ai.reg, TableCountry(ev.h))
+                                      \* and the country it reports next to that registration is
+                                      \* the one the block table assigns to the address
+                                      /\ ev.ai.country = TableCountryChars(ev.h)
     [] ev.e = "run" -> ev.out = "none"
     [] ev.e = "oor" -> ev.out \in {"some", "none"}
     [] ev.e = "s" -> /\ pv = <<>> \/ Less(pv, ev.reg)
